@@ -27,6 +27,8 @@ func c10Catalogue(r *Rich, thorough bool) []c10Case {
 	var out []c10Case
 	add := func(site string, req core.Req) { out = append(out, c10Case{Site: site, Req: req}) }
 	targets := append(r.TaskIDs(), r.E1, r.E2, r.PrunedTask, r.PrunedEpic, r.Unknown)
+	// other spellings of existing ids (lower case, padded, prefix): whatever ergo makes of them, a failure must change nothing
+	targets = append(targets, strings.ToLower(r.ByState["todo"]), " "+r.ByState["todo"]+" ", strings.ToLower(r.ByState["doing"]), r.ByState["blocked"][:5], strings.ToLower(r.E1))
 	type fv struct {
 		k string
 		v interface{}
